@@ -127,6 +127,19 @@ theorem loop2_gen {α : Type} (l : List (Route α)) (i n c : Nat) :
 theorem loop2_eq_afterNthUse {α : Type} (l : List (Route α)) (n : Nat) : loop2 l 0 n 0 = afterNthUse l n := by
   rw [loop2_gen]; split <;> simp_all
 
+/-- helpers.go `methodInt`: the fast switch is taken only when no custom `RequestMethods` is configured,
+otherwise the slot is `slices.Index(app.config.RequestMethods, s)` — for *every* name, standard or not;
+and the fast switch returns for each default method its index in `DefaultMethods` (so it agrees with
+`slices.Index` over the default list) and −1 otherwise. This is what the driver's `methodInt`
+(`names.idxOf?` over the configured list) transcribes. -/
+theorem facts_methodInt :
+    Facts.methodIntShape =
+      ["if len(app.configured.RequestMethods) == 0 { switch s }",
+       "return slices.Index(app.config.RequestMethods, s)"] ∧
+    Facts.methodIntSwitch =
+      ((List.range Facts.methods.length).map fun i => Facts.methods.getD i "" ++ "=>" ++ toString i) ++ ["default=>-1"] := by
+  decide
+
 /-- method ints are unambiguous -/
 theorem facts_methods_nodup : Facts.methods.Nodup := by decide
 
